@@ -151,8 +151,17 @@ pub fn reduce01(args: &[String]) {
     let mk = || prop.worker(&WorkerCtx { tier: Tier::Quick, seed: 1, phase: doc["phase"].as_str().unwrap_or("random").to_string(), build: Build::Debug });
     let mut w = mk();
     let needs_expect = case.get("expect").is_some();
+    let death = matches!(want["kind"].as_str(), Some("native-stack-overflow") | Some("abort-nounwind-panic") | Some("crash") | Some("sanitizer") | Some("alloc-failure"));
     let mut test = |p: &Program| -> bool {
         let mut c = case.clone();
+        if death {
+            c["src"] = serde_json::json!(print_program(p, style));
+            c["ast"] = serde_json::to_value(p).unwrap();
+            let mut d2 = doc.clone();
+            d2["case"] = c;
+            let r = crate::sup::run_case_in_child(&d2);
+            return r.verdict == Verdict::Violation && r.sig["kind"] == want["kind"] && r.sig["location"] == want["location"];
+        }
         if needs_expect {
             let (expect, _, _) = run_reference(p, 300_000, false);
             if let crate::lang::reval::RefOutcome::Fail(crate::lang::reval::Fail::Stuck(_)) = expect {
@@ -180,6 +189,9 @@ pub fn reduce01(args: &[String]) {
     let mut c = case.clone();
     c["src"] = serde_json::json!(print_program(&red, style));
     c["ast"] = serde_json::to_value(&red).unwrap();
+    if death {
+        return;
+    }
     if let Ok(r) = crate::worker::guarded(|| w.run(&c)) {
         println!("-- {}", r.msg.lines().next().unwrap_or(""));
     }
